@@ -714,5 +714,6 @@ fn show(l: &HL) -> String {
 }
 
 fn main() {
+    let _ = sozu_command_lib::logging::setup_logging("file:///dev/null", false, None, None, None, "error", "C13");
     drive(run);
 }
